@@ -177,6 +177,10 @@ func (s *dnsProxy) Handle(ctx context.Context, conn net.Conn) error {
 			return err
 		}
 
+		// like the datagram branch: a backend that takes the query and stays silent must not
+		// pin this handler (and the client's connection) for ever
+		conn2.SetReadDeadline(time.Now().Add(30 * time.Second))
+
 		if n, err = readMsg(conn2); err != nil {
 			return err
 		}
